@@ -137,6 +137,23 @@ def run(ctx: Ctx) -> None:
         got = d.get(key)
         ctx.check(isinstance(got, list) and [tuple(p) for p in got] == pairs, "R1b", f"{key.upper()} pairs", repo.loc("pprint", repo.func(qual)), "pairs come back", f"{key.upper()} {pairs} comes back as {got!r} from lines {lines!r}")
 
+    # ---- R4 number formats ------------------------------------------------------------------------
+    ctx.rule("R4", "every textual shape Python's str() gives an int or a finite float (plain, signed, decimal, exponent with either sign) is read back by the lexer as exactly one number token of the right kind in a value position", 12)
+    st_val, _ = G.state_after([next(iter(["MAP"])), "UNQUOTED_STRING"]) if "MAP" in G.terms else (None, None)
+    if st_val is None:
+        raise AnalysisError("cannot reach a value position in the LALR automaton")
+    acc = G.accepts[st_val]
+    shapes = {
+        "int": ("SIGNED_INT", ["0", "7", "255", "-1", "1000000"]),
+        "decimal float": ("SIGNED_FLOAT", ["0.5", "10.0", "-0.25", "123456.789", "-0.0"]),
+        "exponent float, small": ("SIGNED_FLOAT", ["1e-05", "2.5e-05", "-1.5e-07", "1.234e-10"]),
+        "exponent float, large": ("SIGNED_FLOAT", ["1e+16", "1.5e+20", "-2e+30", "1e+100"]),
+    }
+    for name, (kind, texts) in shapes.items():
+        for txt in texts:
+            got = G.lex_kind(txt, acc)
+            ctx.check(got == kind, "R4", f"{name}: {txt}", "mappyfile/mapfile.lark", f"{kind}", f"the number text {txt!r} (what str() writes for such a value) is read back as {got or 'several tokens / no token'} instead of one {kind}: the value does not survive a print / parse cycle")
+
     # ---- R2 structure -------------------------------------------------------------------------------
     ctx.rule("R2", "the printer visits keys in dictionary order and recurses on the keys composite() uses for child objects", 2)
     L = layout.Layout(e)
